@@ -9,7 +9,9 @@ Names == {S("a"), S("b"), S("a/b"), S("a b"), S("a  b"), S("B"), <<233>>, <<97, 
           \* a newline in first and in last position, and names that a formatting routine could misread
           <<10, 97, 98>>, <<97, 10>>, S("a%20b"), S("100%"), S("%[1]x"), S("%s"),
           \* names that are not in clean form (the summary uses the names as given)
-          S("./a"), S("a//b"), S("a/../b"), S("a/")}
+          S("./a"), S("a//b"), S("a/../b"), S("a/"),
+          \* a newline inside a directory component; two names of 481 characters that differ in the last one only
+          <<100, 10, 105, 114, 47, 97, 98>>, [i \in 1..481 |-> IF i = 481 THEN 49 ELSE 120], [i \in 1..481 |-> IF i = 481 THEN 50 ELSE 120]}
 Contents == {1, 2}
 AllFiles == {[name |-> n, content |-> c] : n \in Names, c \in Contents}
 NameSet(fs) == {fs[i].name : i \in 1..Len(fs)}
